@@ -22,13 +22,32 @@ const MSG_RX_STATE_BITMAP_LEN: u32 = 16;
 pub struct RxCtrState {
     max_ctr: u32,
     ctr_bitmap: u16,
+    /// `false` until the first counter is received (see [`RxCtrState::new_unsynced`]).
+    synced: bool,
 }
 
 impl RxCtrState {
+    /// Create a state synchronized to `max_ctr`, with every counter in the window
+    /// behind it marked as already received (the trust-first policy for group senders).
     pub const fn new(max_ctr: u32) -> Self {
         Self {
             max_ctr,
             ctr_bitmap: 0xffff,
+            synced: true,
+        }
+    }
+
+    /// Create a state that is not yet synchronized to the peer's counter.
+    ///
+    /// The first counter received - whatever its value, `0` included - is accepted and
+    /// becomes the max counter, with an empty window behind it: nothing was received
+    /// from the peer yet, so a message the peer sent earlier but which got overtaken
+    /// is still a first-time message.
+    pub const fn new_unsynced() -> Self {
+        Self {
+            max_ctr: 0,
+            ctr_bitmap: 0,
+            synced: false,
         }
     }
 
@@ -51,6 +70,13 @@ impl RxCtrState {
     /// - `true` (group): modular comparison — a counter is forward
     ///   iff `(msg_ctr - max_ctr) mod 2^32` falls in `[1, 2^31 - 1]`, otherwise behind.
     pub fn post_recv(&mut self, msg_ctr: u32, is_encrypted: bool, with_rollover: bool) -> bool {
+        if !self.synced {
+            self.synced = true;
+            self.max_ctr = msg_ctr;
+            self.ctr_bitmap = 0;
+            return true;
+        }
+
         if msg_ctr == self.max_ctr {
             // Duplicate
             return false;
@@ -87,7 +113,13 @@ impl RxCtrState {
                 self.ctr_bitmap <<= udiff;
                 self.insert(udiff - 1);
             } else {
-                self.ctr_bitmap = 0xffff;
+                // The whole previous window moved out; the counters skipped over were
+                // never received, so they must remain acceptable (exactly once)
+                self.ctr_bitmap = 0;
+                if udiff == MSG_RX_STATE_BITMAP_LEN {
+                    // The previous max_ctr is the oldest entry of the new window
+                    self.insert(udiff - 1);
+                }
             }
             true
         } else if !is_encrypted {
